@@ -767,6 +767,12 @@ fn write_evidence(
         }
     }
     let all_exhaustive = !reports.is_empty() && reports.iter().all(|r| r.exhaustive);
+    if samples.is_empty() {
+        // nothing was generated (the run stopped at a committed regression replay, or only a sub-check without
+        // samples was selected): say so instead of leaving the list empty
+        samples.push(json!({"class": "none", "case": {"note": "no generated case was sampled in this run",
+            "regression_replays_run": regress_run, "violations": violations}}));
+    }
     let ev = json!({
         "property_id": p.id,
         "tier": tier.name(),
